@@ -77,10 +77,12 @@ CHECKS.update({
             "Every op x class x buffering mode x fault point; lock shims inspected after the faulty thread finished, second thread "
             "must be able to run; delay sweeps over programs mixing collection/buffer/class locks; all orders of filename re-pointing.",
             SCHED + "faults only where load/save/validation can really fail. " + BASE, "2/C10"),
-    "C11": ("exploration", "runtime monitoring: exhaustive invalid-input grid with memory/resource walkers",
-            "E1+E2",
+    "C11": ("exploration", "runtime monitoring: exhaustive invalid-input grid with memory/resource walkers; "
+            "deterministic scheduler for rejection next to a writer thread",
+            "E1+E2+E4",
             "Complete grid class x entry point x target position x forbidden item kind x position inside the argument; rejection "
-            "class, in-memory tree walk and independent resource read after every attempt.",
+            "class, in-memory tree walk and independent resource read after every attempt. Part threaded: every single-item entry "
+            "point offered a forbidden item while another thread writes on the same tree, delay sweep of both threads.",
             FAKES + "Zarr: only non-str keys asserted. " + BASE, "2/C11"),
     "C12": ("exploration", "runtime monitoring: exhaustive-small + random round-trip differential through a fresh object",
             "E1+E2",
@@ -108,10 +110,12 @@ CHECKS.update({
             "Arguments, results of ()/values()/items(), popped and deleted children, cross-assigned nodes: every reachable container "
             "is mutated afterwards; collection and resource must equal the snapshot.",
             FAKES + BASE, "2/C16"),
-    "C17": ("exploration", "runtime monitoring: audit-hook write monitor + stat/hash snapshots + fake-store write counters",
-            "E3",
+    "C17": ("exploration", "runtime monitoring: audit-hook write monitor + stat/hash snapshots + fake-store write counters; "
+            "write events attributed to client calls under the deterministic scheduler",
+            "E3+E4",
             "Read-only programs with arbitrary context nesting on existing and missing resources for all 18 classes; no write-class "
-            "event, identical (inode,size,mtime,sha256), nothing created, counters unchanged.",
+            "event, identical (inode,size,mtime,sha256), nothing created, counters unchanged. Part next_to_writer: reads next to "
+            "writer threads (same object, child, own object) under delay sweeps; no write event may belong to a read call.",
             FAKES + BASE, "2/C17"),
     "C18": ("exploration", "runtime monitoring: tree type walker after every step + attribute/item twin-program differential",
             "E1",
@@ -120,7 +124,7 @@ CHECKS.update({
             FAKES + BASE, "2/C18"),
     "C19": ("exploration", "runtime monitoring: warm-process vs fresh-interpreter differential over permuted histories",
             "E1",
-            "Every probe outcome in warm workers fed random permutations of a ~65-value pool (incl. numpy instance-dependent types) "
+            "Every probe outcome in warm workers fed random permutations of a ~90-value pool (incl. numpy instance-dependent types, weak and lazy proxies) "
             "is compared with the outcome in a fresh interpreter per value; all cold pair orders of instance-dependent values.",
             "numpy from the offline wheelhouse. " + BASE, "2/C19"),
 })
@@ -172,9 +176,9 @@ def main():
             {"name": "E2", "path": "vf/catalog.py", "kind_free_text": "independent resource probes, outside writer",
              "serves_properties": ["C01", "C02", "C04", "C05", "C06", "C07", "C08"]},
             {"name": "E3", "path": "vf/fsmon.py", "kind_free_text": "audit-hook file-system write monitor",
-             "serves_properties": ["C05", "C07", "C17"]},
+             "serves_properties": ["C02", "C04", "C05", "C07", "C17"]},
             {"name": "E4", "path": "vf/sched.py", "kind_free_text": "deterministic line-level scheduler, cooperative "
-             "locks, linearizability checker", "serves_properties": ["C09", "C10", "C13", "C14"]},
+             "locks, linearizability checker", "serves_properties": ["C09", "C10", "C11", "C13", "C14", "C17"]},
             {"name": "E5", "path": "vf/inject.py", "kind_free_text": "fork-based crash injector, audit-hook fault injector",
              "serves_properties": ["C08", "C10"]},
             {"name": "E6", "path": "vf/findings.py", "kind_free_text": "known-findings classifier keyed by mechanism",
